@@ -36,6 +36,7 @@ class C09(_BldProp):
         progs = BG.set_length_everywhere(rng, n // 5)
         progs += [BG.rand_program(rng, maxops=10) for _ in range(n)]
         progs += BG.boundary_programs(rng)
+        progs += BG.length_toggle_programs(rng)
         progs += BG.small_exhaustive(3 if tier == "quick" else 4)
         if tier == "thorough":
             progs += [BG.rand_program(rng, maxops=8, big=True) for _ in range(3000)]
@@ -104,6 +105,7 @@ class C10(_BldProp):
             progs.extend(BG.metamorphic_variants(rng, p))
             self._groups.append((start, len(progs)))
         progs += BG.boundary_programs(rng)
+        progs += BG.length_toggle_programs(rng)
         progs += BG.small_exhaustive(3 if tier == "quick" else 4)
         return progs
 
